@@ -108,14 +108,16 @@ class NativeBatch:
                 nm = 'a%d' % n
                 if isinstance(t, tuple) and t[0] == 'ptr':
                     # ('ptr', pointee type, nbytes, mutable): v = bit pattern of the pointee (little endian int)
-                    _, pt, nbytes, mutable = t
-                    words = (nbytes + 7) // 8
+                    # optional 5th element: number of guard words on each side of the object (v covers them too)
+                    pt, nbytes, mutable = t[1], t[2], t[3]
+                    guard = t[4] if len(t) > 4 else 0
+                    words = (nbytes + 7) // 8 + 2 * guard
                     vals = ', '.join(str((v >> (64 * i)) & (2**64 - 1)) for i in range(words))
                     body.append('    %s_w : [%d]u64 = u64.[%s];' % (nm, words, vals))
                     if mutable:
-                        body.append('    %s := (^mut %s).(mut rawptr.(^mut %s_w));' % (nm, pt, nm))
+                        body.append('    %s := (^mut %s).(mut rawptr.(^mut %s_w[%d]));' % (nm, pt, nm, guard))
                     else:
-                        body.append('    %s := (^%s).(rawptr.(^%s_w));' % (nm, pt, nm))
+                        body.append('    %s := (^%s).(rawptr.(^%s_w[%d]));' % (nm, pt, nm, guard))
                 elif t in ('f32', 'f64'):
                     ut = 'u32' if t == 'f32' else 'u64'
                     body.append('    %s_b : %s = %d;' % (nm, ut, v))
